@@ -32,6 +32,25 @@ Fixpoint det_f (fuel : nat) (m : qmat) : Q :=
   end.
 Definition det (m : qmat) : Q := det_f (length m) m.
 
+(* det with its entry checks (norms.rs det): rank 0 is refused, a vector is returned as it is, a matrix must be square
+   with extents >= 2 (Array::is_square), an array of higher rank must end in a square matrix shape (Vec::is_square)
+   and is cut into as many n x n blocks as it holds (split refuses zero parts); the answer is the flat list of the
+   blocks' determinants *)
+Definition qblock (n : nat) (es : list Q) (b : nat) : qmat :=
+  map (fun i => firstn n (skipn (b * (n * n) + i * n) es)) (seq 0 n).
+Definition det_checked (sh : list nat) (es : list Q) : res (list Q) :=
+  match sh with
+  | [] => Err EAtLeast
+  | [_] => Ok es
+  | _ =>
+    let m := last sh 0 in let n := nth (length sh - 2) sh 0 in
+    if (m <? 2) || (n <? 2) then Err EAtLeast else
+    if negb (m =? n) then Err EEqual else
+    if length sh =? 2 then Ok [det (qblock n es 0)] else
+    let blocks := prod sh / (n * n) in
+    if blocks =? 0 then Err EParam else Ok (map (fun b => det (qblock n es b)) (seq 0 blocks))
+  end.
+
 Definition qabs_ltb (x y : Q) : bool := negb (Qle_bool (Qabs y) (Qabs x)).
 
 (* pivot search in column j from row j *)
